@@ -1,1 +1,109 @@
-//! C02 harnesses.
+//! C02 — concurrent publishers never overlap, lose or reorder each other's messages (context-bounded: 2 publishers,
+//! ONE preemption of publisher A's offer by COMPLETE offers of publisher B at a symbolic shared-memory access point).
+//! Regime R1 (publog.rs): real Publication objects over one real LogBuffers, concrete layout, symbolic payload / ids /
+//! preemption point.
+use super::c01::rd_i32;
+use super::hook;
+use super::publog::*;
+use super::util::*;
+use crate::concurrent::atomic_buffer::AtomicBuffer;
+use crate::concurrent::logbuffer::term_appender::default_reserved_value_supplier;
+use crate::publication::Publication;
+use crate::utils::errors::AeronError;
+
+/// What publisher B (the environment) does and what it got back. One static with a distinctive non-zero field.
+struct EnvB {
+    magic: u64,
+    publication: *const Publication,
+    src: *mut u8,
+    len1: i32,
+    len2: i32, // second offer of B, -1 = none
+    res1: i64, // position, or -1 AdminAction, -2 other error, -9 not run
+    res2: i64,
+    ran: u32,
+}
+static mut B: EnvB = EnvB { magic: 0x5a5a_c02e_0b00_0001, publication: std::ptr::null(), src: std::ptr::null_mut(), len1: 0, len2: -1, res1: -9, res2: -9, ran: 0 };
+
+fn code(r: Result<u64, AeronError>) -> i64 {
+    match r {
+        Ok(p) => p as i64,
+        Err(e) => {
+            let c = if matches!(e, AeronError::AdminAction) { -1 } else { -2 };
+            std::mem::forget(e);
+            c
+        }
+    }
+}
+
+fn env_b() {
+    unsafe {
+        let p = &*B.publication;
+        B.ran += 1;
+        B.res1 = code(p.offer_opt(AtomicBuffer::new(B.src, 96), 0, B.len1, default_reserved_value_supplier));
+        if B.len2 >= 0 {
+            B.res2 = code(p.offer_opt(AtomicBuffer::new(B.src, 96), 0, B.len2, default_reserved_value_supplier));
+        }
+    }
+}
+
+fn frame_len(l: &PubLog, part: usize, off: usize) -> i32 {
+    rd_i32(&l.mem.0, part * TL + off)
+}
+fn frame_type(l: &PubLog, part: usize, off: usize) -> u16 {
+    u16::from_le_bytes([l.mem.0[part * TL + off + 6], l.mem.0[part * TL + off + 7]])
+}
+fn payload_eq(l: &PubLog, part: usize, off: usize, src: &[u8; 96], len: usize) -> bool {
+    let mut ok = true;
+    let mut j = 0;
+    while j < len {
+        ok &= l.mem.0[part * TL + off + 32 + j] == src[j];
+        j += 1;
+    }
+    ok
+}
+
+/// Both publishers append unfragmented messages into the same term; B's complete offer runs before A's j-th access.
+// @verif tier=quick unwind=4 unwindset=payload_eq:34 fs=6000 timeout=1500
+#[kani::proof]
+fn c02_two_publishers_same_term() {
+    let mut l = PubLog::new(1, 64);
+    l.set_limit(i64::MAX);
+    l.set_connected(1);
+    let pa = l.publication();
+    let pb = l.publication();
+    let mut src_a: [u8; 96] = kani::any();
+    let mut src_b: [u8; 96] = kani::any();
+    let (la, lb): (i32, i32) = (17, 20);
+    unsafe {
+        B.publication = &pb;
+        B.src = src_b.as_mut_ptr();
+        B.len1 = lb;
+        B.len2 = -1;
+        B.res1 = -9;
+        B.ran = 0;
+    }
+    let j: u32 = kani::any();
+    kani::assume(j <= 12);
+    hook::begin(u32::MAX, j, Some(env_b), false);
+    let ra = code(pa.offer_opt(AtomicBuffer::new(src_a.as_mut_ptr(), 96), 0, la, default_reserved_value_supplier));
+    let n = hook::end();
+    let ran = unsafe { B.ran };
+    kani::assume(ran == 1); // j within A's access sequence: B really ran (j >= n means no preemption happened)
+    let rb = unsafe { B.res1 };
+    let part = l.partition();
+    let base = l.position(); // 1 * TL + 64
+    // both accepted, positions distinct and equal to their frame ends; frames disjoint, intact, gap-free
+    assert!(ra > 0 && rb > 0 && ra != rb, "C02: both offers accepted with distinct positions");
+    let a_first = ra < rb;
+    let (off_a, off_b) = if a_first { (64usize, 128usize) } else { (128usize, 64usize) };
+    assert!(ra == base - 64 + off_a as i64 + 64 && rb == base - 64 + off_b as i64 + 64, "C02: returned positions are consistent with frame placement");
+    assert!(frame_len(&l, part, off_a) == 32 + la && frame_len(&l, part, off_b) == 32 + lb, "C02: each message occupies its own committed frame");
+    assert!(payload_eq(&l, part, off_a, &src_a, la as usize) && payload_eq(&l, part, off_b, &src_b, lb as usize), "C02: both payloads intact");
+    assert!(l.raw_tail_of(part) == pack_tail(l.term_id(), 192), "C02: the tail covers exactly both frames (gap-free)");
+    assert!(frame_len(&l, part, 192) == 0 && l.active_count() == 1, "C02: nothing beyond the two frames, no rotation");
+    kani::cover!(a_first, "[must] A's frame first");
+    kani::cover!(!a_first, "[must] B's frame first");
+    kani::cover!(j == 0, "[must] preemption before A's first access");
+    std::mem::forget(pa);
+    std::mem::forget(pb);
+}
